@@ -32,6 +32,7 @@ import (
 	"github.com/olric-data/olric/internal/environment"
 	"github.com/olric-data/olric/internal/server"
 	"github.com/olric-data/olric/internal/service"
+	"github.com/olric-data/olric/internal/verifhook"
 	"github.com/olric-data/olric/pkg/flog"
 )
 
@@ -282,6 +283,7 @@ func (r *RoutingTable) processClusterEvent(event *discovery.ClusterEvent) {
 		}
 		r.Members().Delete(member.ID)
 		r.consistent.Remove(event.NodeName)
+		verifhook.Point(r.this.Name, "member.leave")
 		// Don't try to used closed sockets again.
 		r.log.V(2).Printf("[INFO] Node left: %s", event.NodeName)
 		if err := r.client.Close(event.NodeName); err != nil {
